@@ -23,7 +23,7 @@ def mc_constants(par, np_, classes, events, hbs, drops=1, joined="{TRUE, FALSE}"
          "OppTicks": 2, "OppPeers": 1, "OppThr": 1,
          "MaxEvents": events, "MaxHb": hbs, "MaxDrops": drops,
          "InitMode": '"%s"' % init, "ClassMode": '"%s"' % classes, "InitJoined": joined,
-         "HbFilterDirect": True, "CutAtGE": True, "SendsGraft": True, "BubbleToD": True,
+         "HbFilterDirect": True, "CutAtGE": True, "SendsGraft": True, "BubbleToD": True, "FreshBackoff": True, "DownCleansFanout": True,
          "JoinFilterDirect": True, "GraftNeedsStream": False,          # D16 is repaired in /repo (5570549), D6 is not
          "AllowDirectInFanout": True, "AllowHalf": False}
     c.update(sw)
@@ -72,6 +72,8 @@ def run_mc(ctx):
     jobs.append(("bug-nograft", mc_constants((2, 1, 3, 1, 0), 3, "tiny", 0, 1, joined="{TRUE}", SendsGraft=False), "P_C07_Signalling", 300, False))
     jobs.append(("d6-half-stream", mc_constants((2, 1, 3, 1, 0), 2, "tiny", 2, 0, joined="{TRUE}", AllowHalf=True), "P_C07_Connected", 300, False))
     jobs.append(("d16-direct-fanout", mc_constants((2, 1, 3, 1, 0), 2, "tiny", 2, 0, joined="{FALSE}", JoinFilterDirect=False), "P_C07_Additions", 300, False))
+    jobs.append(("bug-stale-backoff-snapshot", mc_constants((4, 2, 5, 1, 1), 6, "tiny", 0, 1, joined="{TRUE}", FreshBackoff=False, OppTicks=1, OppThr=2, OppPeers=2), "P_C07_Cut", 300, False))
+    jobs.append(("bug-fanout-keeps-departed", mc_constants((2, 1, 3, 1, 0), 2, "tiny", 2, 0, joined="{FALSE}", DownCleansFanout=False), "P_C07_Connected", 300, False))
     jobs.append(("bug-bubble-dscore", mc_constants((4, 3, 5, 1, 2), 6, "dout", 0, 1, joined="{TRUE}", BubbleToD=False, OppTicks=1), "P_C07_Cut", 300, False))
     jobs.append(("d6-fixed", mc_constants((2, 1, 3, 1, 0), 2 if not ctx.thorough else 3, "tiny", 2, 0, joined="{TRUE}", AllowHalf=True, GraftNeedsStream=True), None, 300, False))
 
